@@ -668,7 +668,24 @@ fn permutations(n: usize) -> Vec<Vec<usize>> {
 fn sortedmulti_checks(rep: &Report, cen: &mut Census) {
     for n in 1..=4usize {
         for k in 1..=n {
-            let labels: Vec<String> = (1..=n).map(|i| format!("K{}", i)).collect();
+            // key labels chosen so that the x-only order differs from the order of the 33-byte
+            // serializations (some odd-parity key has a smaller x than an even-parity one)
+            let labels: Vec<String> = {
+                let pool: Vec<String> = (1..=40).map(|i| format!("K{}", i)).collect();
+                let mut pick: Vec<String> = pool[..n].to_vec();
+                'search: for start in 0..pool.len() - n {
+                    let cand = pool[start..start + n].to_vec();
+                    let mut a = cand.clone();
+                    let mut b = cand.clone();
+                    a.sort_by_key(|l| crate::keys::key(l).x32());
+                    b.sort_by_key(|l| crate::keys::key(l).compressed());
+                    if a != b || n == 1 {
+                        pick = cand;
+                        break 'search;
+                    }
+                }
+                pick
+            };
             for (wname, mk) in [
                 ("wsh", Box::new(|ks: Vec<String>| D::Wsh(T::SortedMulti(k, ks))) as Box<dyn Fn(Vec<String>) -> D>),
                 ("sh", Box::new(|ks: Vec<String>| D::Sh(T::SortedMulti(k, ks)))),
@@ -682,6 +699,16 @@ fn sortedmulti_checks(rep: &Report, cen: &mut Census) {
                     bump(cen, "sortedmulti_permutations");
                     if let Ok(Ok(c)) = guard(|| prepare(&d, KeyForm::Compressed)) {
                         spks.push(c.spk.clone());
+                        // the output is the standard one for the sorted key list (byte-level reference)
+                        let (ref_spk, _, _, _) = reference(&d, KeyForm::Compressed);
+                        if c.spk.as_bytes() != &ref_spk[..] {
+                            rep.violation(Violation {
+                                key: format!("C16|sortedmulti-spk|{}|{}|{}", wname, k, n),
+                                class: format!("sortedmulti-output-differs-from-reference-{}", wname),
+                                what: format!("script_pubkey {} but the reference for the sorted key list is {}", hex(c.spk.as_bytes()), hex(&ref_spk)),
+                                case: json!({"descriptor": c.desc.to_string()}),
+                            });
+                        }
                         // satisfaction with exactly k signatures validates
                         let w = World { sigs: labels[..k].iter().cloned().collect(), pre: Default::default(), locktime: 0, sequence: 0xffff_fffe };
                         let spend = make_spend(c.spk.clone(), w.locktime, w.sequence);
